@@ -104,12 +104,12 @@ def ext_type(rng, kind, mods=None):
 ENTRIES = ("client", "authn_response", "response_factory")
 
 
-# saml2.response.response_factory() builds the AuthnResponse with update() instead of loads(): the load-time comparison
-# with the caller's outstanding requests is skipped, and a Response whose InResponseTo is absent / unknown / another
-# request's yields identity as long as the bearer confirmation's InResponseTo is outstanding (reported round 5, see
-# design/C06.md).  Until that is decided, Responses that are not correlated go through response_factory only with this
-# switch on; otherwise they take the authn_response() entry point.
-RESPONSE_FACTORY_UNCORRELATED = False
+# Until fix f342ca56 saml2.response.response_factory() built the AuthnResponse with update() instead of loads(): the
+# load-time comparison with the caller's outstanding requests was skipped, and a Response whose InResponseTo is absent /
+# unknown / another request's yielded identity as long as the bearer confirmation's InResponseTo was outstanding
+# (found in round 5, design/C06.md; regression case corpus/C06/respfactory_uncorrelated.json).  The switch that kept
+# uncorrelated Responses away from that entry point is on since the repair: they go through response_factory too.
+RESPONSE_FACTORY_UNCORRELATED = True
 
 
 def correlated(case):
